@@ -1,13 +1,9 @@
 ------------------------------ MODULE MC_sets -------------------------------
 (* Bounded model of the set family (C05): all families of three keys over a 2-member universe
    (plus wrong-typed keys) x every set command instance. *)
-EXTENDS MCBase
+EXTENDS Universe
 
-ka == B("a")
-kb == B("b")
 kc == B("c")
-x == B("x")
-y == B("y")
 z == B("z")
 Keys == {ka, kb, kc}
 Mem == {x, y}
@@ -15,8 +11,6 @@ ValU == {VSet(m, 0) : m \in (SUBSET Mem) \ {{}}} \cup {VStr(x, 0), VList(<<x>>, 
 Dbs0 == UNION {[K -> ValU] : K \in SUBSET Keys}
 SetStates == {WithDb0(InitServer({1}), d) : d \in Dbs0}
 
-N(i) == Itoa(i)
-C(name, args) == <<B(name)>> \o args
 KeySeqs(n) == UNION {[1..m -> Keys] : m \in 1..n}
 
 SetCmds ==
